@@ -6,6 +6,7 @@ package histgen
 
 import (
 	"fmt"
+	"slices"
 	"math/big"
 	"math/rand"
 	"strings"
@@ -19,6 +20,7 @@ import (
 	"github.com/nspcc-dev/neo-go/pkg/core/native/nativenames"
 	"github.com/nspcc-dev/neo-go/pkg/core/native/noderoles"
 	"github.com/nspcc-dev/neo-go/pkg/core/transaction"
+	"github.com/nspcc-dev/neo-go/pkg/crypto/keys"
 	"github.com/nspcc-dev/neo-go/pkg/neotest"
 	"github.com/nspcc-dev/neo-go/pkg/smartcontract"
 	"github.com/nspcc-dev/neo-go/pkg/smartcontract/manifest"
@@ -123,7 +125,7 @@ type Gen struct {
 
 // DefaultWeights of transaction kinds.
 func DefaultWeights() map[string]int {
-	return map[string]int{"gas": 10, "neo": 8, "reg": 3, "unreg": 2, "vote": 8, "policy": 4, "role": 2,
+	return map[string]int{"gas": 10, "neo": 8, "reg": 3, "unreg": 2, "vote": 8, "policy": 4, "wlfee": 4, "role": 2,
 		"deploy": 2, "update": 2, "destroy": 1, "kvput": 8, "kvdel": 4, "kvmany": 4, "kvfail": 4, "kvtry": 3,
 		"notary": 3, "notarylock": 1, "notarywd": 1, "notify": 2}
 }
@@ -136,6 +138,42 @@ func New(t testing.TB, net *chainkit.Net, bc *core.Blockchain, seed int64, nacc 
 		g.Accts = append(g.Accts, neotest.NewSingleSigner(wallet.NewAccountFromPrivateKey(chainkit.Key(fmt.Sprintf("acct-%d", i)))))
 	}
 	return g
+}
+
+// committee returns signers for a committee-only method: an ordinary funded account pays, the CURRENT committee
+// (which depends on votes) co-signs with the majority multisig built from the keys this network knows.
+func (g *Gen) committee() []neotest.Signer {
+	pubs, err := g.BC.GetCommittee()
+	if err != nil {
+		return []neotest.Signer{g.E.Committee}
+	}
+	known := map[string]*keys.PrivateKey{}
+	for i := range g.Net.Committee {
+		k := chainkit.Key(fmt.Sprintf("committee-%d", i))
+		known[string(k.PublicKey().Bytes())] = k
+	}
+	for i := range g.Accts {
+		k := chainkit.Key(fmt.Sprintf("acct-%d", i))
+		known[string(k.PublicKey().Bytes())] = k
+	}
+	m := smartcontract.GetMajorityHonestNodeCount(len(pubs))
+	var accs []*wallet.Account
+	for _, p := range pubs {
+		k, ok := known[string(p.Bytes())]
+		if !ok {
+			continue
+		}
+		a := wallet.NewAccountFromPrivateKey(k)
+		if err := a.ConvertMultisig(m, slices.Clone(pubs)); err != nil {
+			return []neotest.Signer{g.E.Committee}
+		}
+		accs = append(accs, a)
+	}
+	if len(accs) < m {
+		return []neotest.Signer{g.E.Committee}
+	}
+	_, payer := g.acct()
+	return []neotest.Signer{payer, neotest.NewMultiSigner(accs...)}
 }
 
 func (g *Gen) hash(name string) util.Uint160 { return g.E.NativeHash(g.T, name) }
@@ -204,7 +242,7 @@ func (g *Gen) pick() string {
 	}
 	x := g.R.Intn(tot)
 	// deterministic order
-	keys := []string{"gas", "neo", "reg", "unreg", "vote", "policy", "role", "deploy", "update", "destroy", "kvput", "kvdel", "kvmany", "kvfail", "kvtry", "notary", "notarylock", "notarywd", "notify"}
+	keys := []string{"gas", "neo", "reg", "unreg", "vote", "policy", "wlfee", "role", "deploy", "update", "destroy", "kvput", "kvdel", "kvmany", "kvfail", "kvtry", "notary", "notarylock", "notarywd", "notify"}
 	for _, k := range keys {
 		if x < g.Weights[k] {
 			return k
@@ -229,7 +267,10 @@ func (g *Gen) one() *transaction.Transaction {
 	kind := g.pick()
 	i, a := g.acct()
 	sa := []neotest.Signer{a}
-	com := []neotest.Signer{g.E.Committee}
+	var com []neotest.Signer
+	if kind == "policy" || kind == "role" || kind == "wlfee" {
+		com = g.committee()
+	}
 	var tx *transaction.Transaction
 	switch kind {
 	case "gas", "neo":
@@ -291,6 +332,27 @@ func (g *Gen) one() *transaction.Transaction {
 			tx = g.tx(com, g.hash(nativenames.Policy), "unblockAccount", b.ScriptHash())
 		case 5:
 			tx = g.tx(com, g.hash(nativenames.Neo), "setGasPerBlock", int64(1+g.R.Intn(9))*1_0000000)
+		}
+	case "wlfee":
+		// whitelisted fixed fee of a scenario contract method: set, re-set with another fee while still set, remove
+		var live []util.Uint160
+		for _, h := range g.KVs {
+			if g.BC.GetContractState(h) != nil {
+				live = append(live, h)
+			}
+		}
+		if len(live) == 0 {
+			return nil
+		}
+		ms := [][2]any{{"put", int64(2)}, {"del", int64(1)}, {"putMany", int64(3)}, {"notify", int64(1)}}
+		m, kv := ms[g.R.Intn(len(ms))], live[g.R.Intn(len(live))]
+		if g.R.Intn(10) < 7 { // concentrate on one method so that a fee gets re-set while whitelisted
+			m, kv = ms[0], live[0]
+		}
+		if g.R.Intn(5) == 0 {
+			tx = g.tx(com, g.hash(nativenames.Policy), "removeWhitelistFeeContract", kv, m[0], m[1])
+		} else {
+			tx = g.tx(com, g.hash(nativenames.Policy), "setWhitelistFeeContract", kv, m[0], m[1], int64(1+g.R.Intn(5))*1_0000000)
 		}
 	case "role":
 		roles := []noderoles.Role{noderoles.StateValidator, noderoles.Oracle, noderoles.P2PNotary, noderoles.NeoFSAlphabet}
